@@ -168,22 +168,28 @@ CInc(c)     == /\ pcC[c] = "accepted" /\ Alive(c) /\ pcC' = [pcC EXCEPT ![c] = "
 HEnter(c)   == /\ pcC[c] = "wrapped" /\ Alive(c)
                /\ pcC' = [pcC EXCEPT ![c] = IF req[c].method # "POST" THEN "respond" ELSE "entered"]
                /\ UNCHANGED <<vMain, vJob, vHttp, req, resp, proofOf, shared, aborted, vMet>>
-\* io.ReadAll + json.Unmarshal (hooks prove.read / prove.decoded)
-HDecode(c)  == /\ pcC[c] = "entered" /\ Alive(c)
-               /\ IF req[c].body = "malformed"
-                    THEN pcC' = [pcC EXCEPT ![c] = "respond"] /\ UNCHANGED shared
-                    ELSE pcC' = [pcC EXCEPT ![c] = "decoded"] /\ shared' = (IF SharedParams THEN c ELSE shared)
+\* io.ReadAll(r.Body) (hook prove.read)
+HRead(c)    == /\ pcC[c] = "entered" /\ Alive(c) /\ pcC' = [pcC EXCEPT ![c] = "readbody"]
+               /\ shared' = (IF SharedParams THEN c ELSE shared)       \* mutant: the body lands in a buffer shared between requests
                /\ UNCHANGED <<vMain, vJob, vHttp, req, resp, proofOf, aborted, vMet>>
+\* json.Unmarshal into request-local parameters (hook prove.decoded; a decode failure goes straight to the error response)
+HDecode(c)  == /\ pcC[c] = "readbody" /\ Alive(c)
+               /\ LET src == IF SharedParams THEN shared ELSE c IN
+                    IF req[src].body = "malformed"
+                    THEN pcC' = [pcC EXCEPT ![c] = "respond"] /\ proofOf' = [proofOf EXCEPT ![c] = "malformed"]
+                    ELSE pcC' = [pcC EXCEPT ![c] = "decoded"] /\ proofOf' = [proofOf EXCEPT ![c] = src]      \* whose parameters were decoded
+               /\ UNCHANGED <<vMain, vJob, vHttp, req, resp, shared, aborted, vMet>>
 \* ProveInsertion / ProveDeletion on the decoded parameters (hook prove.proved)
 HProve(c)   == /\ pcC[c] = "decoded" /\ Alive(c)
-               /\ LET src == IF SharedParams THEN shared ELSE c IN
+               /\ LET src == proofOf[c] IN
                     proofOf' = [proofOf EXCEPT ![c] = IF req[src].body = "valid" THEN src ELSE "error"]
                /\ pcC' = [pcC EXCEPT ![c] = "respond"]
                /\ UNCHANGED <<vMain, vJob, vHttp, req, resp, shared, aborted, vMet>>
 \* response written (hook prove.respond / prove.error)
 HRespond(c) == /\ pcC[c] = "respond" /\ Alive(c)
                /\ LET e == Expected(req[c])
-                      r == IF req[c].method # "POST" \/ req[c].body = "malformed" THEN e
+                      r == IF req[c].method # "POST" THEN e
+                           ELSE IF proofOf[c] = "malformed" THEN [status |-> 400, code |-> "malformed_body"]
                            ELSE IF proofOf[c] = "error" THEN [status |-> 400, code |-> "proving_error"]
                            ELSE [status |-> 200, code |-> "proof"]
                   IN /\ resp' = [resp EXCEPT ![c] = r]
@@ -202,7 +208,7 @@ CClose2(c)  == /\ pcC[c] = "idleconn" /\ pcC' = [pcC EXCEPT ![c] = "done"]
                /\ active' = [active EXCEPT !["p"] = @ \ {c}]
                /\ UNCHANGED <<vMain, vJob, inShutdown, lst, req, resp, proofOf, shared, aborted, vMet>>
 
-ClientStep(c) == CConnect(c) \/ CInc(c) \/ HEnter(c) \/ HDecode(c) \/ HProve(c) \/ HRespond(c) \/ CCount(c) \/ CDec(c) \/ CClose2(c)
+ClientStep(c) == CConnect(c) \/ CInc(c) \/ HEnter(c) \/ HRead(c) \/ HDecode(c) \/ HProve(c) \/ HRespond(c) \/ CCount(c) \/ CDec(c) \/ CClose2(c)
 JobStep(j) == WWake(j) \/ WShut1(j) \/ WShut2(j) \/ WShut3(j) \/ WJoin(j)
               \/ SBegin(j) \/ SCheck(j) \/ SListen(j) \/ STrack(j) \/ SServe(j) \/ SRet(j)
 MainStep == MainStop \/ MainAwait \/ MainBind \/ CWake \/ CReqM \/ CReqP \/ CAwM \/ CAwP \/ CClose
@@ -237,7 +243,7 @@ Isolation == \A c \in Clients : resp[c] # NoResp =>
                 /\ resp[c] = Expected(req[c])
                 /\ (resp[c].status = 200 => proofOf[c] = c)
 \* C20 -----------------------------------------------------------------
-InWrapper(c) == pcC[c] \in {"wrapped", "entered", "decoded", "respond", "written", "counted"}
+InWrapper(c) == pcC[c] \in {"wrapped", "entered", "readbody", "decoded", "respond", "written", "counted"}
 GaugeExact   == Wrapped => inflight = Cardinality({c \in Clients : InWrapper(c)})
 Monotone     == \A l \in Labels : total[l] <= sentBag[l]
 Lag          == \A l \in Labels : sentBag[l] - total[l] <= Cardinality({c \in Clients : pcC[c] = "written" /\ LabelOf(c) = l})
